@@ -76,7 +76,11 @@ class Bridge:
     def mc_runs(self, tier):
         ratios = "{1, 2, 4}"
         return [("WbCsrBridge_MC", MC.format(ratios=ratios),
-                 f"WbCsrBridge_MC ratios {ratios}: latency, exactly-once, ascending granules, lanes, no stray strobes")]
+                 f"WbCsrBridge_MC ratios {ratios}: latency, exactly-once, ascending granules, lanes, no stray strobes"),
+                ("WbCsrBridgeMux_MC", "SPECIFICATION Spec\nCONSTANTS Ratios = {1, 2}\nVIEW View\n"
+                 "INVARIANT MultiGranuleRegisterAtomic\nPROPERTY WriteEffectVisibleByAck\nCHECK_DEADLOCK FALSE\n",
+                 "WbCsrBridgeMux_MC ratios {1,2}: bridge spec driving the multiplexer spec, register changing every "
+                 "cycle: atomic multi-granule read, write effect visible by the acknowledge")]
 
     def vacuity(self, tier):
         return [("WbCsrBridge_MC", MC.format(ratios="{2}") + "INVARIANT NeverAcks\n", "NeverAcks")]
@@ -125,6 +129,17 @@ class Bridge:
 
     # leg B: TLC-generated behaviours of the abiding environment, replayed on every width pair
     def extra(self, run, tier):
+        if tier == "thorough":
+            import re
+            r4 = tlc.run("WbCsrBridgeMux_MC", "SPECIFICATION Spec\nCONSTANTS Ratios = {4}\n"
+                         "INVARIANT MultiGranuleRegisterAtomic\nPROPERTY WriteEffectVisibleByAck\nCHECK_DEADLOCK FALSE\n",
+                         simulate=300, depth=60, workers=8, timeout=1200, seed=common.seed() + 9)
+            tlc.require_ok(r4, "WbCsrBridgeMux_MC -simulate")
+            if r4.errors:
+                raise common.MachineryError("bridge+multiplexer composition violates C10: " + r4.raw[-2000:])
+            m = re.search(r"The number of states generated: (\d+)", r4.raw)
+            r4.generated = int(m.group(1)) if m else 0
+            run.add_tlc(r4, "WbCsrBridgeMux_MC ratio 4 by random walks (-simulate)")
         num, depth = (120, 40) if tier == "thorough" else (40, 30)
         res, behs = tlc.simulate_behaviours("WbCsrBridge_MC", MC.format(ratios="{1, 2, 4}"),
                                             num=num, depth=depth, wanted=("n", "lastin"),
